@@ -6,7 +6,7 @@ ROOT = os.path.dirname(os.path.dirname(os.path.abspath(__file__)))
 BASELINE = "cd /repo && /venv/bin/python -m pytest -ra -q -p no:cacheprovider --timeout=900 --continue-on-collection-errors"
 
 COMMON_NOTE = ("Trusted: Lean 4.33 kernel; axioms propext, Classical.choice, Quot.sound only (audited per theorem on every run; no sorry, "
-               "native_decide, bv_decide or own axioms); the translator tools/extract.py; the correspondence check (differential, sizes in the "
+               "native_decide, bv_decide or own axioms); the translators tools/extract.py (tables) and tools/pysrc2lean*.py (control logic of the parsers, the checksum, to_bytes(), the request loop, the configuration-item codec); the correspondence check (differential, sizes in the "
                "evidence); the hand-written Spec/ transcription of the u-blox interface description. ")
 
 P = {
@@ -65,9 +65,23 @@ P = {
          "Lean 4 proof (decision table + invariants over chunk histories) + differential correspondence", "§7 C20"),
 }
 
+# where the control logic itself is regenerated from the Python source on every run and proved equal to the model (§14.4)
+SRV = (" Source-level tie: poll / set / set_mga / fire_and_forget / _send / _wait / _check_* of server_base.py are translated from the Python AST on every run "
+       "(tools/pysrc2lean_server.py -> Gen/SrcServer.lean) and proved equal to the model (Proofs/SrcEquiv/Server*, 12 theorems), the headline theorems are restated "
+       "for the generated definitions (TransferServer); unavailable / in doubt on a tree outside the translatable subset - then said in the evidence, never a verdict.")
+CFG = (" Source-level tie: CfgKeyData.from_key / pack / unpack and their helpers are translated from the Python AST on every run (tools/pysrc2lean.py, "
+       "tools/pysrc2lean_cfg.py -> Gen/Src.lean, Gen/SrcCfg.lean) and proved equal to the model (Proofs/SrcEquiv/CfgKeyData, CfgItem; TransferCfg).")
+PARSE = (" Source-level tie: the parser / checksum / to_bytes() control logic is translated from the Python AST on every run (tools/pysrc2lean.py -> Gen/Src.lean) "
+         "and proved equal to the model (Proofs/SrcEquiv, Transfer*).")
+SRC = {'C04': SRV, 'C05': SRV, 'C06': SRV, 'C10': SRV, 'C12': SRV, 'C13': CFG, 'C14': CFG,
+       'C01': PARSE, 'C02': PARSE, 'C03': PARSE, 'C09': PARSE, 'C11': PARSE, 'C15': PARSE, 'C16': PARSE, 'C18': PARSE}
+SRCTECH = ' + source-level translation (Python AST -> Lean) proved equal to the model'
+
 checks = []
 for pid in sorted(P):
     text, note, tech, ref = P[pid]
+    if pid in SRC:
+        text, tech = text + SRC[pid], tech + SRCTECH
     checks.append({
         'property_id': pid,
         'quick_cmd': f'./check {pid} --tier quick',
@@ -91,7 +105,7 @@ m = {
  'checks': checks,
  'not_applicable': [],
  'notes': 'Every check: translator (Gen/ regenerated from /repo) -> lake build of the property theorems -> #print axioms audit -> correspondence model vs code '
-          '-> property oracles on the real code (Spec evaluated by SpecDriver). known_findings.json lists the ten defects of the pinned tree, all repaired by fix: commits in /repo. '
+          '-> property oracles on the real code (Spec evaluated by SpecDriver). known_findings.json lists the twelve defects found (ten of the pinned tree, two later), all repaired by fix: commits in /repo. '
           'Exit 2 = the check itself could not run.',
 }
 json.dump(m, open(os.path.join(ROOT, 'MANIFEST.json'), 'w'), indent=1)
